@@ -68,6 +68,7 @@ type Config struct {
 	PreparedCache                     proxycore.PreparedCache
 	PCT                               int   // >0: priority-based task choice with that many priority change points (PCT, Burckhardt et al. 2010)
 	MaxStreams                        int16 // tuning knob: stream ids per backend connection (0 = the shipped 2048)
+	MaxMessages                       int   // tuning knob: length of a connection's write queue (0 = the shipped 1024)
 	TweakProxy                        func(*proxy.Config)
 }
 
@@ -151,6 +152,7 @@ type World struct {
 	DialAttempts  map[string][]time.Duration // every SUT dial (accepted or not), by address
 	HostileUnpreparedID []byte // id of a statement in the proxy's prepared cache (hostile UNPREPARED replies)
 	ClockOn       bool // early clock advances allowed (off during boot and drain)
+	ScriptBeatsUnprepared bool // a scripted outcome is applied even to EXECUTE/BATCH of ids the node does not know (hostile backends, C17)
 	ClockBudget   int  // number of early clock advances left in this run
 }
 
@@ -446,6 +448,10 @@ func (w *World) StartProxy(bind string, contact []string, tweak func(*proxy.Conf
 	if w.Cfg.MaxStreams > 0 {
 		proxycore.SimMaxStreams = w.Cfg.MaxStreams
 	}
+	proxycore.SimMaxMessages = proxycore.MaxMessages
+	if w.Cfg.MaxMessages > 0 {
+		proxycore.SimMaxMessages = w.Cfg.MaxMessages
+	}
 	ctx, cancel := context.WithCancel(context.Background())
 	pi.Cancel = cancel
 	cfg := proxy.Config{
@@ -505,6 +511,20 @@ func (w *World) ConnectClient(pi *ProxyInst, version primitive.ProtocolVersion) 
 	c.Link = l
 	w.Clients = append(w.Clients, c)
 	w.Logf("%s: CONNECT to proxy%d (%s)", c, pi.ID, versionName(version))
+	return c
+}
+
+// ConnectClientVia connects a client to a proxy that listens on every address of its host, through
+// the address ip: the proxy sees ip as the local address of that connection.
+func (w *World) ConnectClientVia(pi *ProxyInst, version primitive.ProtocolVersion, ip string) *Client {
+	c := &Client{w: w, ID: len(w.Clients) + 1, Version: version, Outstanding: map[int16]*ClientReq{}, ProxyID: pi.ID}
+	l, err := w.N.ConnectLocal(pi.Listener, c, &net.TCPAddr{IP: net.ParseIP(ip), Port: 9042}, fmt.Sprintf("client%d", c.ID))
+	if err != nil {
+		panic("harness: cannot connect client: " + err.Error())
+	}
+	c.Link = l
+	w.Clients = append(w.Clients, c)
+	w.Logf("%s: CONNECT to proxy%d via %s (%s)", c, pi.ID, ip, versionName(version))
 	return c
 }
 
@@ -882,6 +902,17 @@ func (w *World) Seq() uint64 { return w.seq }
 
 // EncodeFrame encodes a frame with the reference codec (exported for scenarios).
 func EncodeFrame(compression string, frm *frame.Frame) []byte { return encodeFrame(compression, frm) }
+
+// TryEncodeFrame is EncodeFrame for frames that were decoded from bytes the SUT produced: such a
+// frame may hold values the reference encoder refuses, which is a finding, not a harness error.
+func TryEncodeFrame(compression string, frm *frame.Frame) (raw []byte, err error) {
+	defer func() {
+		if r := recover(); r != nil {
+			err = fmt.Errorf("%v", r)
+		}
+	}()
+	return encodeFrame(compression, frm), nil
+}
 
 // DecodeFrame decodes a frame with the reference codec (exported for scenarios).
 func DecodeFrame(compression string, raw []byte) (*frame.Frame, error) { return decodeFrame(compression, raw) }
